@@ -56,7 +56,12 @@ impl Case {
             s += &format!("{ind}    \"\"\"\n{ind}    doc {}\n{ind}    \"\"\"\n", TEMPLATES[d]);
         }
         if let Some(c) = self.cell_t {
-            s += &format!("{ind}  And t\n{ind}    | h | {} |\n", TEMPLATES[c]);
+            if self.doc_t.is_some() && self.in_rule {
+                // the table follows the doc string of the same step
+                s += &format!("{ind}    | h | {} |\n", TEMPLATES[c]);
+            } else {
+                s += &format!("{ind}  And t\n{ind}    | h | {} |\n", TEMPLATES[c]);
+            }
         }
         for (i, t) in self.tables.iter().enumerate() {
             if t.tagged {
